@@ -3,6 +3,7 @@ package main
 import (
 	"context"
 	"fmt"
+	"path/filepath"
 	"sort"
 	"strconv"
 	"strings"
@@ -523,6 +524,8 @@ func (c *cluster) step(st string) bool {
 		ok = c.stepCrash(atoi(f[1]))
 	case "restart":
 		ok = c.stepRestart(atoi(f[1]))
+	case "diskloss":
+		ok = c.stepDiskLoss(atoi(f[1]))
 	case "cut", "heal":
 		a, b := pair(f[1])
 		ok = c.stepLink(a, b, f[0] == "cut")
@@ -1693,6 +1696,39 @@ func (c *cluster) stepCrash(id int) bool {
 	c.tok(fmt.Sprintf("CR:%d", id))
 	c.stats["crashes"]++
 	c.mon.onCrash(id)
+	return true
+}
+
+// stepDiskLoss: the node's disk is replaced: the process stops, its WAL and database directories are gone, it comes
+// back with nothing (no shard directory: no term, no log, no database).  The coordinator is not told.
+func (c *cluster) stepDiskLoss(id int) bool {
+	n := c.node(id)
+	if n == nil {
+		return false
+	}
+	if n.up && !c.stepCrash(id) {
+		return false
+	}
+	if c.unreal != "" {
+		return true
+	}
+	before := c.shadowLog(id)
+	removeAll(filepath.Join(n.dir, "wal"))
+	removeAll(filepath.Join(n.dir, "db"))
+	c.mu.Lock()
+	n.log, n.pending, n.walFirst = nil, nil, 0
+	n.term, n.status = -1, proto.ServingStatus_NOT_MEMBER
+	n.dbCommit, n.advertised, n.mcommit, n.electing, n.snapFenced = -1, -1, 0, false, false
+	n.curWal = nil
+	c.mu.Unlock()
+	delete(c.truncs, id)
+	c.event("disk-loss %d (it held %s)", id, logTok(before))
+	c.tok(fmt.Sprintf("DL:%d", id))
+	c.stats["disk-losses"]++
+	c.mon.onDiskLoss(id, before)
+	if err := n.start(); err != nil {
+		c.unrealisable(fmt.Sprintf("restart of node %d after its disk loss failed: %v", id, err))
+	}
 	return true
 }
 
